@@ -92,6 +92,9 @@ class VFuture(Future):
     """a user-defined subclass of the lazily computed Future"""
 
 
+THREAD_YIELD = False      # set by realize_threads.py
+
+
 class VBaseErr(BaseException):
     """an error that derives from BaseException only (like KeyboardInterrupt): `except Exception` does not catch it"""
 
@@ -999,6 +1002,12 @@ class VBatch(BatchBase):
         else:
             tb = 0
             p = (base, n)
+            if base == 0:
+                p = BatchBase.get_priority(self)        # natural runs: the library's own default priority decides
+                n = p[1]
+        if THREAD_YIELD:
+            import time
+            time.sleep(0)       # several threads at once (C16): let another thread run in the middle of the selection loop
         run.emit("Prio", b=self.bid, xs=[base, n, tb])
         return p
 
